@@ -44,15 +44,20 @@ RecordFor(n, d, off, rl) ==
     IN  [k \in 1..len |-> IF \E p \in 0..(n - 1) : RecBase(n, 1, off, rl, p) = k - 1
                           THEN window[(CHOOSE p \in 0..(n - 1) : RecBase(n, 1, off, rl, p) = k - 1) + 1]
                           ELSE 1]
-(* the canonical location of every ORF satisfies the relation and extracts to the ORF *)
+RECURSIVE SeqOfSet(_)
+SeqOfSet(S) == IF S = {} THEN <<>> ELSE LET x == CHOOSE x \in S : TRUE IN <<x>> \o SeqOfSet(S \ {x})
+(* the canonical location of every ORF satisfies the relation and extracts to the ORF; the list of
+   all canonical locations is a correct answer of the scan (so the relation is satisfiable) *)
 MappingSat == stage = 2 =>
-    \A d \in {1, -1} : \A pl \in Placements(Len(seq)) : \A o \in OrfsOf(seq) :
+    \A d \in {1, -1} : \A pl \in Placements(Len(seq)) :
         LET n == Len(seq)
-            w == OrfWalk(n, d, pl[1], pl[2], o)
-            loc == LocOfWalk(w, d)
-        IN  /\ PartsOK(pl[2], loc) /\ TransWalk(loc) = w /\ Len(loc.parts) <= 2
-            /\ Extract(RecordFor(n, d, pl[1], pl[2]), loc) = SubSeq(seq, o[1] + 1, o[2])
-            /\ ScanFailed(seq, d, pl[1], 0, pl[2], <<loc>>) \subseteq {"every_orf_reported"}
+            os == SeqOfSet(OrfsOf(seq))
+            LocOf(o) == LocOfWalk(OrfWalk(n, d, pl[1], pl[2], o), d)
+        IN  /\ \A o \in OrfsOf(seq) :
+                  /\ PartsOK(pl[2], LocOf(o)) /\ TransWalk(LocOf(o)) = OrfWalk(n, d, pl[1], pl[2], o) /\ Len(LocOf(o).parts) <= 2
+                  /\ Extract(RecordFor(n, d, pl[1], pl[2]), LocOf(o)) = SubSeq(seq, o[1] + 1, o[2])
+            /\ ScanFailed(seq, d, pl[1], 0, pl[2], [i \in DOMAIN os |-> LocOf(os[i])]) = {}
+            /\ (os # <<>> => ScanFailed(seq, d, pl[1], 0, pl[2], Tail([i \in DOMAIN os |-> LocOf(os[i])])) = {"every_orf_reported"})
 ProteinShape == stage = 2 => \A o \in OrfsOf(seq) :
     LET x == SubSeq(seq, o[1] + 1, o[2]) IN Len(ProteinOf(x)) = OrfLen(o) \div 3 - 1 /\ 42 \notin RangeOf(ProteinOf(x))
 
